@@ -156,6 +156,9 @@ type FnVC struct {
 	afterHavoc bool
 	closureEnv map[string]Val
 	stableBoxes []stableBox
+	curIns      ssa.Instruction      // instruction being lowered
+	objInfo     map[string]*freshObj // objects allocated by this function, by reference term
+	ownedFields []stableBox // fields of objects allocated here that no callee can reach (escape.go)
 	privSlices map[*ssa.Alloc]bool
 	invTouched []touchedObj
 	axioms []string
@@ -769,6 +772,8 @@ func (vc *FnVC) frameCheck(key, ref string) {
 	allowed := []string{sx(">", ref, vc.entryAlloc)}
 	if strings.HasPrefix(key, "F$") && vc.sorts.extraSeen["emb.host"] {
 		allowed = append(allowed, sAnd(sx("<", ref, "0"), sx(">", sx("emb.host", ref), vc.entryAlloc)))
+		// an embedded struct inside an embedded struct (ID > PrimeExpr > ExprBase)
+		allowed = append(allowed, sAnd(sx("<", ref, "0"), sx("<", sx("emb.host", ref), "0"), sx(">", sx("emb.host", sx("emb.host", ref)), vc.entryAlloc)))
 	}
 	if strings.HasPrefix(key, "Mem$") {
 		allowed = append(allowed, sEq(ref, "0")) // the backing store of a nil slice: nothing to write
@@ -950,6 +955,116 @@ type freshObj struct {
 	ref   string
 	stT   types.Type
 	block *ssa.BasicBlock
+	sites map[ssa.Instruction]bool // where the object is handed to other code (escape.go): checked there instead of at return
+	rets  map[*ssa.Return]bool     // returns that may return the object
+}
+
+// reachableAt: can anybody but this function still see the object when the function returns through block ret?
+// Not if it was never handed on along the way and this return does not return it (it is garbage then).
+func (fo *freshObj) reachableAt(ret *ssa.BasicBlock) (handedOn, returned bool) {
+	for s := range fo.sites {
+		if s.Parent() == ret.Parent() && (s.Block() == ret || s.Block().Dominates(ret)) {
+			handedOn = true
+		}
+	}
+	if len(ret.Instrs) > 0 {
+		if r, ok := ret.Instrs[len(ret.Instrs)-1].(*ssa.Return); ok && fo.rets[r] {
+			returned = true
+		}
+	}
+	return
+}
+
+// instrBefore: a is executed before b on every path that reaches b.
+func instrBefore(a, b ssa.Instruction) bool {
+	if a.Block() == b.Block() {
+		for _, ins := range a.Block().Instrs {
+			if ins == a {
+				return a != b
+			}
+			if ins == b {
+				return false
+			}
+		}
+		return false
+	}
+	return a.Block().Dominates(b.Block())
+}
+
+// releaseAt: an object allocated here is about to become reachable for other code at instruction ins: from now on
+// the heap regime protects its fields (every store is checked), so they must hold now.
+func (vc *FnVC) releaseAt(ins ssa.Instruction) {
+	if vc.scratch > 0 {
+		return
+	}
+	for _, fo := range vc.freshObjs {
+		if !fo.sites[ins] {
+			continue
+		}
+		first := true
+		for s := range fo.sites {
+			if s != ins && s.Parent() == ins.Parent() && instrBefore(s, ins) {
+				first = false
+			}
+		}
+		if !first {
+			continue
+		}
+		st := fo.stT.Underlying().(*types.Struct)
+		for i := 0; i < st.NumFields(); i++ {
+			if vc.fieldInvOf(fo.stT, i) != "nonnil" {
+				continue
+			}
+			key, fs, _ := vc.fieldKey(fo.stT, i)
+			vc.assert("field-invariant", key+" initialised before the object is handed on", nonNilTerm(sSelect(vc.cur(key), fo.ref), fs))
+		}
+	}
+	// the same for encapsulated invariants of objects allocated here
+	if vc.con != nil && vc.con.Helper {
+		return
+	}
+	for ref, fo := range vc.objInfo {
+		if !fo.sites[ins] {
+			continue
+		}
+		first := true
+		for s := range fo.sites {
+			if s != ins && s.Parent() == ins.Parent() && instrBefore(s, ins) {
+				first = false
+			}
+		}
+		if !first {
+			continue
+		}
+		pt := types.NewPointer(fo.stT)
+		c, n := vc.typeInvFor(pt)
+		if c == nil {
+			continue
+		}
+		env := &SpecEnv{vc: vc, vars: map[string]Val{"self": {ref, pt, SInt}}, cur: vc.st, old: vc.entry, pkg: n.Obj().Pkg(), witFn: vc.key}
+		var parts []string
+		_, err := vc.trySpec(func() string { parts = env.conjuncts(c.Expr, false); return "" })
+		if err != "" {
+			continue
+		}
+		vc.flushSide(env)
+		for j, p := range parts {
+			vc.assert("type-invariant", fmt.Sprintf("%s.%d holds when the object is handed on", n.Obj().Name(), j+1), p)
+		}
+	}
+}
+
+// handedOnBefore: some escape site of the object has been executed before (or is) the instruction being lowered.
+func (vc *FnVC) handedOnBefore(fo *freshObj) bool {
+	if vc.curIns == nil {
+		return true
+	}
+	for s := range fo.sites {
+		if s.Parent() != vc.curIns.Parent() || s == vc.curIns || mayPrecede(s, vc.curIns) {
+			return true
+		}
+	}
+	return false
 }
 
 // checkFreshObjs: objects allocated by this function satisfy their field invariants when it returns.
@@ -957,6 +1072,10 @@ func (vc *FnVC) checkFreshObjs(ret *ssa.BasicBlock) {
 	for _, fo := range vc.freshObjs {
 		if !(fo.block == ret || fo.block.Dominates(ret)) {
 			continue
+		}
+		handedOn, returned := fo.reachableAt(ret)
+		if handedOn || !returned {
+			continue // checked where it was handed on / unreachable garbage on this path
 		}
 		st := fo.stT.Underlying().(*types.Struct)
 		for i := 0; i < st.NumFields(); i++ {
@@ -1034,11 +1153,16 @@ func (vc *FnVC) fieldOwner(v ssa.Value) (string, types.Type, bool) {
 	return a.ref, pt.Elem(), true
 }
 
-func (vc *FnVC) checkTouched() {
+func (vc *FnVC) checkTouched(ret *ssa.BasicBlock) {
 	if vc.con != nil && vc.con.Helper {
 		return
 	}
 	for _, t := range vc.invTouched {
+		if fo := vc.objInfo[t.ref]; fo != nil && ret != nil {
+			if handedOn, returned := fo.reachableAt(ret); handedOn || !returned {
+				continue // checked where it was handed on / an object nobody else can see on this path
+			}
+		}
 		c, n := vc.typeInvFor(t.T)
 		if c == nil {
 			continue
@@ -1221,4 +1345,38 @@ func (vc *FnVC) declareRuneFns() {
 		vc.declSeen["axiom:runeCount"] = true
 		vc.axioms = append(vc.axioms, "(assert (forall ((s Str)) (! (and (<= 0 (gs.runeCount s)) (<= (gs.runeCount s) (gs.len s))) :pattern ((gs.runeCount s)))))")
 	}
+}
+
+// mayPrecede: some execution runs instruction a before instruction b (a path leads from a to b).
+func mayPrecede(a, b ssa.Instruction) bool {
+	if a.Block() == b.Block() {
+		for _, ins := range a.Block().Instrs {
+			if ins == a {
+				if a != b {
+					return true
+				}
+			}
+			if ins == b {
+				break
+			}
+		}
+		// a comes after b in the same block: only through a cycle back to the block
+	}
+	seen := map[*ssa.BasicBlock]bool{}
+	var dfs func(x *ssa.BasicBlock) bool
+	dfs = func(x *ssa.BasicBlock) bool {
+		for _, n := range x.Succs {
+			if n == b.Block() {
+				return true
+			}
+			if !seen[n] {
+				seen[n] = true
+				if dfs(n) {
+					return true
+				}
+			}
+		}
+		return false
+	}
+	return dfs(a.Block())
 }
